@@ -221,6 +221,7 @@ struct Ctl {
     last_used: i64,
     last_buf: Vec<i64>,
     hash_to_key: HashMap<u64, i64>,
+    last_acks: HashMap<i64, (bool, i64)>,
 }
 
 impl Ctl {
@@ -258,10 +259,16 @@ impl Ctl {
             None => self.last_buf.get(index).copied().unwrap_or(0),
         }).collect();
         self.last_buf = buf.clone();
-        let acks = self.ack_handles.iter().map(|(number, ack)| {
+        // only acknowledgements that are new or changed since the last record (completed ones never change: a change is reported)
+        let mut acks = Vec::new();
+        for (number, ack) in &self.ack_handles {
             let (done, status) = ack.handle().verif_peek();
-            AckRec { a: *number, done, st: status.map(|status| verif::status_code(&status)).unwrap_or(-1) }
-        }).collect();
+            let st = status.map(|status| verif::status_code(&status)).unwrap_or(-1);
+            if self.last_acks.get(number) != Some(&(done, st)) {
+                self.last_acks.insert(*number, (done, st));
+                acks.push(AckRec { a: *number, done, st });
+            }
+        }
         StateRec {
             store, kw, used, max: clamp(snapshot.max_weight), ttl,
             qlen: snapshot.queue_len as i64, chlen: snapshot.access_channel_len as i64, buf,
@@ -395,7 +402,7 @@ impl<'a> Driver<'a> {
         let mut ctl = Ctl {
             sched: sched.clone(), shared: shared.clone(), clock: clock.clone(), cfg: cfg.clone(),
             ack_numbers: HashMap::new(), ack_handles: Vec::new(), current_op: HashMap::new(),
-            sweeper_holds: None, last_ttl: Vec::new(), last_used: 0, last_buf: Vec::new(), hash_to_key: HashMap::new(),
+            sweeper_holds: None, last_ttl: Vec::new(), last_used: 0, last_buf: Vec::new(), hash_to_key: HashMap::new(), last_acks: HashMap::new(),
         };
         let _ = &ctl.hash_to_key;
         let mut step_no: i64 = 0;
